@@ -65,7 +65,7 @@ func mutantsFor(prop string) []Mutant {
 		{"C07", "READ without SEEK", []Edit{{se, "\tes.SEEK()\n\treturn es.reader.Read(length)", "\treturn es.reader.Read(length)"}}},
 		{"C08", "lexer main loop ignores end of input in most states", []Edit{{lx, "\t\t} else if ch == 0 {\n\t\t\ts.unread_last()\n\t\t\tbreak\n", "\t\t} else if ch == 0 && current_state == SCOLON {\n\t\t\ts.unread_last()\n\t\t\tbreak\n"}}},
 		{"C08", "TokenType.PP loses a case", []Edit{{lx, "\tcase REGEXP:\n\t\treturn \"REGEXP\"\n", ""}}},
-		{"C08", "regex `|` at the end indexes past the pattern", []Edit{{rx, "\t\t\tif next_index+1 >= len(regexp) {\n\t\t\t\treturn nil, next_index, NewParseError(regexp_token, \"Unexpected end of regexp after '|'\")\n\t\t\t}\n", ""}}},
+		{"C14", "a sequence of regexp terms no longer ends at `|`", []Edit{{rx, "regexp[current_index] != ')' && regexp[current_index] != '|' {", "regexp[current_index] != ')' {"}}},
 		{"C08", "nil-success return in parse_between", []Edit{{ps, "\t\t\treturn nil, current_index, NewParseError(current_token, \"Expected identifier following keyword 'named'\")", "\t\t\treturn nil, current_index, nil"}}},
 		{"C08", "generator switch falls through to success", []Edit{{gen, "\treturn nil, NewGenError(fmt.Sprintf(\"Unknown listable '%T'\", il))", "\t_ = il\n\treturn []SearchInstruction{}, nil"}}},
 		{"C09", "instruction fetched past the end", []Edit{{sr, "\t\t\tif currentState.programCounter >= len(insts) {", "\t\t\tif currentState.programCounter > len(insts) {"}}},
@@ -173,6 +173,26 @@ func mutantsFor(prop string) []Mutant {
 		{"C10", "Stack.Copy returns a view of the same backing array", []Edit{{"libvore/ds/stack.go", "\tresult := NewStack[T]()\n\n\tfor _, value := range s.store {\n\t\tresult.Push(value)\n\t}\n\n\treturn result\n", "\treturn &Stack[T]{store: s.store[:len(s.store)]}\n"}}},
 		{"C13", "Stack.Copy returns a view of the same backing array", []Edit{{"libvore/ds/stack.go", "\tresult := NewStack[T]()\n\n\tfor _, value := range s.store {\n\t\tresult.Push(value)\n\t}\n\n\treturn result\n", "\treturn &Stack[T]{store: s.store[:len(s.store)]}\n"}}},
 		{"C08", "checker divides by the number of statements of a loop body", []Edit{{sem, "\tinfo.inLoop = wasInLoop\n\treturn info\n", "\tinfo.inLoop = wasInLoop || 1/len(s.Body) > 1\n\treturn info\n"}}},
+		{"C08", "a nil *ParseError stored as an error", []Edit{{ps, "\t\t\treturn nil, current_index, NewParseError(nameToken, \"Expected identifier following keyword 'named'\")", "\t\t\tvar pe *ParseError\n\t\t\tif nameToken.TokenType != EOF {\n\t\t\t\tpe = NewParseError(nameToken, \"Expected identifier following keyword 'named'\")\n\t\t\t}\n\t\t\treturn nil, current_index, pe"}}},
+		{"C01", "a call gives up beyond a nesting depth", []Edit{{sr, "\tnext_state.CALL(i.ToPC, next_state.programCounter+1)\n\tnext_state.JUMP(i.ToPC)\n\treturn next_state\n", "\tif next_state.callStack.Size() >= 512 {\n\t\tnext_state.BACKTRACK()\n\t\treturn next_state\n\t}\n\tnext_state.CALL(i.ToPC, next_state.programCounter+1)\n\tnext_state.JUMP(i.ToPC)\n\treturn next_state\n"}}},
+		{"C09", "a call gives up beyond a nesting depth", []Edit{{sr, "\tnext_state.CALL(i.ToPC, next_state.programCounter+1)\n\tnext_state.JUMP(i.ToPC)\n\treturn next_state\n", "\tif next_state.callStack.Size() >= 512 {\n\t\tnext_state.BACKTRACK()\n\t\treturn next_state\n\t}\n\tnext_state.CALL(i.ToPC, next_state.programCounter+1)\n\tnext_state.JUMP(i.ToPC)\n\treturn next_state\n"}}},
+		{"C10", "a call gives up beyond a nesting depth", []Edit{{sr, "\tnext_state.CALL(i.ToPC, next_state.programCounter+1)\n\tnext_state.JUMP(i.ToPC)\n\treturn next_state\n", "\tif next_state.callStack.Size() >= 512 {\n\t\tnext_state.BACKTRACK()\n\t\treturn next_state\n\t}\n\tnext_state.CALL(i.ToPC, next_state.programCounter+1)\n\tnext_state.JUMP(i.ToPC)\n\treturn next_state\n"}}},
+		{"C13", "a call gives up beyond a nesting depth", []Edit{{sr, "\tnext_state.CALL(i.ToPC, next_state.programCounter+1)\n\tnext_state.JUMP(i.ToPC)\n\treturn next_state\n", "\tif next_state.callStack.Size() >= 512 {\n\t\tnext_state.BACKTRACK()\n\t\treturn next_state\n\t}\n\tnext_state.CALL(i.ToPC, next_state.programCounter+1)\n\tnext_state.JUMP(i.ToPC)\n\treturn next_state\n"}}},
+		{"C01", "the literal of an instruction is re-rendered on the way from the AST", []Edit{{gen, "\t\tToFind:   l.Value,\n\t\tNot:      l.Not,\n", "\t\tToFind:   fmt.Sprint(l.Value),\n\t\tNot:      l.Not,\n"}}},
+		{"C16", "the literal of an instruction is re-rendered on the way from the AST", []Edit{{gen, "\t\tToFind:   l.Value,\n\t\tNot:      l.Not,\n", "\t\tToFind:   fmt.Sprint(l.Value),\n\t\tNot:      l.Not,\n"}}},
+		{"C02", "a stored definition wins over the command own name", []Edit{{gen, "\tval, prs := state.variables[l.Name]\n\tif !prs {\n", "\tval, prs := state.variables[l.Name]\n\tif _, stored := state.globalSubroutines[l.Name]; stored || !prs {\n"}}},
+		{"C13", "a stored definition wins over the command own name", []Edit{{gen, "\tval, prs := state.variables[l.Name]\n\tif !prs {\n", "\tval, prs := state.variables[l.Name]\n\tif _, stored := state.globalSubroutines[l.Name]; stored || !prs {\n"}}},
+		{"C05", "process loops are cut off after a quota of rounds", []Edit{{ex, "\texpr_state := state\n\tfor {\n", "\texpr_state := state\n\tfor rounds := 0; rounds < 100000; rounds++ {\n"}}},
+		{"C11", "process loops are cut off after a quota of rounds", []Edit{{ex, "\texpr_state := state\n\tfor {\n", "\texpr_state := state\n\tfor rounds := 0; rounds < 100000; rounds++ {\n"}}},
+		{"C10", "any widens its read until it has two bytes", []Edit{{se, "\t} else {\n\t\tes.CONSUME(1)\n\t\tes.NEXT()\n\t}\n}\n\nfunc (es *SearchEngineState) MATCHRANGE", "\t} else {\n\t\tfor value != \"\\n\" && len(value) < 2 {\n\t\t\tvalue = es.READ(2)\n\t\t}\n\t\tes.CONSUME(1)\n\t\tes.NEXT()\n\t}\n}\n\nfunc (es *SearchEngineState) MATCHRANGE"}}},
+		{"C15", "escape look-ahead takes whatever is buffered", []Edit{{lx, "hex, _ := s.r.Peek(2)", "hex, _ := s.r.Peek(s.r.Buffered())"}}},
+		{"C16", "escape look-ahead takes whatever is buffered", []Edit{{lx, "hex, _ := s.r.Peek(2)", "hex, _ := s.r.Peek(s.r.Buffered())"}}},
+		{"C17", "the indented rendering is sorted by file name", []Edit{{"libvore/engine/matches.go", "func (m Matches) FormattedJson() string {\n", "func (m Matches) FormattedJson() string {\n\tsort.Slice(m, func(i, j int) bool { return m[i].Filename < m[j].Filename })\n"}}},
+		{"C19", "a lock is held while the source is lexed", []Edit{{"libvore/ast/ast.go", "func ParseReader(reader io.Reader) (*Ast, error) {\n\tlexer := initLexer(reader)\n", "func ParseReader(reader io.Reader) (*Ast, error) {\n\tsource_lock.Lock()\n\tdefer source_lock.Unlock()\n\tlexer := initLexer(reader)\n"}, {"libvore/ast/ast.go", "func ParseReader(reader io.Reader) (*Ast, error) {", "var source_lock sync.Mutex\n\nfunc ParseReader(reader io.Reader) (*Ast, error) {"}, {"libvore/ast/ast.go", "\t\"io\"\n", "\t\"io\"\n\t\"sync\"\n"}}},
+		{"C09", "RunFiles opens the subdirectories of a directory argument", []Edit{{"libvore/engine/engine.go", "\t\t\t\t\tif entry.IsDir() {\n\t\t\t\t\t\tcontinue\n\t\t\t\t\t}\n", ""}}},
+		{"C09", "mode NOTHING no longer creates its memory writer", []Edit{{sr, "\tcase NOTHING:\n\t\twriter = files.WriterFromMemory()\n", "\tcase NOTHING:\n"}}},
+		{"C11", "a loop count that does not fit an int becomes 1", []Edit{{ps, "\tvalue, err := strconv.Atoi(current_token.Lexeme)\n\tif err != nil {\n\t\treturn nil, current_index, NewParseError(current_token, \"Error converting lexeme to number value\")\n\t}\n", "\tvalue, err := strconv.Atoi(current_token.Lexeme)\n\tif err != nil {\n\t\tvalue = 1\n\t}\n"}}},
+		{"C13", "a call no longer records where its text starts", []Edit{{se, "\t\tstartMatchOffset: len(es.currentMatch),\n", ""}}},
 		{"C08", "expression scan does not stop on the EOF token", []Edit{{ps, "tokenType == BREAK || tokenType == CONTINUE || tokenType == EOF", "tokenType == BREAK || tokenType == CONTINUE"}}},
 	}
 	var out []Mutant
